@@ -29,7 +29,7 @@ ASSUMPTIONS = [
     "a delegation issued from inside a tied rank is unspecified",
 ]
 REPORT_COUNTERS = ["programs", "calls", "delegations", "chains_len3", "chains_end_amb", "chains_end_none",
-                   "fresh_call_delegations", "mode_variant", "mode_mixin", "mode_method", "fnext_sites", "dep_programs", "keyed_group_programs",
+                   "fresh_call_delegations", "mode_variant", "mode_mixin", "mode_method", "fnext_sites", "dep_programs", "keyed_group_programs", "programs_registering_while_a_method_runs", "registrations_made_by_a_running_method",
                    "dep_rank_shared"]
 
 
@@ -107,6 +107,11 @@ def gen_case(rng, params, idx):
         spec["methods"] = ms
         spec["split"] = min(spec["split"], len(ms))
     spec["callseed"] = rng.randrange(1 << 30)
+    if mode == "plain" and spec["callseed"] % 4 == 0:
+        for m in spec["methods"]:
+            if m["kind"] == "next" and (m["mid"] + spec["callseed"]) % 3 == 0:
+                m["regs"] = True      # registers a method (that never applies) the first times it runs, then delegates
+                spec["registers_while_running"] = True
     return spec
 
 
@@ -116,6 +121,24 @@ def check_case(spec, res):
     pin()
     env = T.Env(spec["hier"])
     prog = Program(spec, env=env, tag="c07")
+    if spec.get("registers_while_running"):
+        res.count("programs_registering_while_a_method_runs")
+        nreg = [0]
+
+        def hook(mid):
+            if nreg[0] >= 3:
+                return
+            nreg[0] += 1
+            g = {}
+            exec("def late(" + ", ".join(f"a{j}: bytes" for j in range(spec["npos"])) + "):\n    return 'late'\n", g)
+            try:
+                prog.ov.register(g["late"], priority=nreg[0])
+                prog.bind()
+                res.count("registrations_made_by_a_running_method")
+            except Exception as e:  # noqa: BLE001
+                if "locked for modifications" not in str(e):
+                    raise
+        prog.vf.ondemand_hook = hook
     methods = spec["methods"]
     res.count("programs")
     res.count("mode_" + spec["mode"])
